@@ -199,6 +199,27 @@ theorem consLoad_external_is_code (e : EngineInfo) (r : Py.Sess.RuleObj) (loaded
         σ.self_conclusions.map propConc = r'.cons ∧ r' = { r with cons := [] } :=
   Op.consLoad_external_is_code e r loaded0
 
+/-- **The external `Py.Sess.anteLoad`** - the call `self.antecedent.load(engine)` inside the translated `Rule.load`,
+    which *states* that a failing call leaves `expression = None` - **is the translated `Antecedent.load`, including that
+    clause**, for every callee `post` (`Function.infix_to_postfix`) that behaves like its model `Op.toPostfix` (it raises
+    the class the model predicts and otherwise returns a text whose words are the model's postfix tokens; the
+    translated `infix_to_postfix` is tied to that model by `C17.code_toPostfix`): the external returns the rule with
+    the tree the translated function assigns; when it raises, the translated function raises the same class and the
+    record at the raise has `self.expression = None`; nothing else of the rule changes.  (`_partial`: the hypothesis on
+    `post` is not discharged here for the translated `infix_to_postfix`; that needs `C17.code_toPostfix` under `NoPunct`
+    and `Py.split (Py.joinSp p) = p` for postfix tokens.) -/
+theorem anteLoad_external_is_code_partial (tbl : Table) (e : EngineInfo) (r : Py.Sess.RuleObj) (loaded0 : Py.Load.Expression)
+    (post : String → Py.M String)
+    (hp : ∀ text, match toPostfix tbl (formatInfix tbl text) with
+      | .error k => post text = .error k.toPy
+      | .ok p => ∃ s, post text = .ok s ∧ Py.split s = p) :
+    match Py.Sess.anteLoad tbl e r with
+    | .ok r' => ∃ σ, Gen.Code.Antecedent_load_rs.run e post (joinWords r.parsed.ante) loaded0 {} = .ok σ ∧
+        exprA σ.self_expression = r'.ante ∧ r' = { r with ante := r'.ante }
+    | .error (err, r') => ∃ σ, Gen.Code.Antecedent_load_rs.run e post (joinWords r.parsed.ante) loaded0 {} = .error (err, σ) ∧
+        exprA σ.self_expression = r'.ante ∧ r' = { r with ante := none } :=
+  Op.anteLoad_external_is_code tbl e r loaded0 post hp
+
 /-- **`Consequent.load` accepts exactly** a non-empty list of conclusions `v is h* t` joined by `and`, where `v` is an
     output variable of the engine, the `h` are registered hedges and `t` is a term of `v` – and returns exactly those
     conclusions.  (`⇐` needs that no term is called like a hedge: the machine tries hedges first.)  In particular a
